@@ -15,7 +15,8 @@
 //	                                                  sizes is what goes to the Lean side
 //	      item = pkg,name,hexfile,d|f,bytes,atimeSecondsAgo,nested 0|1,mark 0|1|2|3,hexkey
 //	      mark: 1 retrieved before the pass, 2 stored before the pass, 3 retrieved DURING the pass (after the walk, before the loop),
-//	            4 retrieved in the window between the loop's isMarked test of that very entry and its rename
+//	            4 retrieved in the window between the loop's isMarked test of that very entry and its rename,
+//	            5 retrieved DURING the loop: when the first entry to be evicted (whichever it is) reaches its rename
 //
 // found   = hexpath:size:atime,…   every entry shouldClean recognises, with the size the walk measures
 // marks   = hexpath:size,…         cache.added restricted to those paths
@@ -169,7 +170,7 @@ type item struct {
 	Bytes     int   // content bytes (a directory gets one file of that size, plus maybe a nested key-like directory)
 	Atime     int64 // seconds before "now"
 	Nested    bool  // plain mode: put a key-like subdirectory inside the entry (must not be cleaned on its own)
-	Mark      int   // 0 none, 1 retrieved before, 2 stored before, 3 retrieved after the walk, 4 retrieved in its own test-to-rename window
+	Mark      int   // 0 none, 1 retrieved before, 2 stored before, 3 retrieved after the walk, 4 retrieved in its own test-to-rename window, 5 retrieved while the loop is at its first eviction
 	Key       []byte
 }
 
@@ -232,7 +233,8 @@ func runLayout(r *lib.Run, layLine string, compress bool, items []item, hi, lo u
 	}
 	// entries retrieved while the cleaner is suspended between its walk (and sort) and its eviction loop (mark 3), or in
 	// the window between the loop's isMarked test of that entry and its rename (mark 4)
-	late, window := map[string]bool{}, map[string]bool{}
+	late, window, duringLoop := map[string]bool{}, map[string]bool{}, map[string]bool{}
+	loopStarted := false
 	var lateS []string
 	pathOf := func(it item) string { return filepath.Join(dir, it.Pkg, it.Name, it.File) }
 	cache.VerifOpHook = func(o, path string) {
@@ -244,11 +246,27 @@ func runLayout(r *lib.Run, layLine string, compress bool, items []item, hi, lo u
 				}
 			}
 		case o == "clean-evict":
+			rel, _ := filepath.Rel(dir, path)
 			for _, it := range items {
 				if it.Mark == 4 && pathOf(it) == path {
 					c.Retrieve(core.NewBuildTarget(core.ParseBuildLabel("//"+it.Pkg+":"+it.Name, "")), it.Key, nil)
-					rel, _ := filepath.Rel(dir, path)
 					window[rel] = true
+				}
+			}
+			if !loopStarted {
+				// the loop is at its first eviction: this process now retrieves the mark-5 entries.  The one being evicted
+				// right now (if it is one of them) is in its own test-to-rename window; all the others are tested later.
+				loopStarted = true
+				for _, it := range items {
+					if it.Mark == 5 {
+						c.Retrieve(core.NewBuildTarget(core.ParseBuildLabel("//"+it.Pkg+":"+it.Name, "")), it.Key, nil)
+						r5, _ := filepath.Rel(dir, pathOf(it))
+						if pathOf(it) == path {
+							window[r5] = true
+						} else {
+							duringLoop[r5] = true
+						}
+					}
 				}
 			}
 		}
@@ -258,6 +276,7 @@ func runLayout(r *lib.Run, layLine string, compress bool, items []item, hi, lo u
 	marksAfter := c.MarkedForVerif()
 	for _, e := range before {
 		if _, ok := marksAfter[filepath.Join(dir, e.rel)]; ok && !marked[e.rel] && !window[e.rel] {
+			// marked before its own test: after the walk (mark 3) or while an earlier entry was being evicted (mark 5)
 			late[e.rel] = true
 			lateS = append(lateS, hx(e.rel))
 		}
@@ -318,7 +337,9 @@ func runLayout(r *lib.Run, layLine string, compress bool, items []item, hi, lo u
 		if evSet[e.rel] && marked[e.rel] {
 			fail("marked-entry-evicted", e.rel)
 		}
-		if evSet[e.rel] && late[e.rel] {
+		if evSet[e.rel] && late[e.rel] && duringLoop[e.rel] {
+			fail("entry-marked-after-cleaning-started-evicted", e.rel+" was retrieved by this process while the loop was evicting an earlier entry, and was evicted later in the same pass")
+		} else if evSet[e.rel] && late[e.rel] {
 			fail("entry-marked-during-pass-evicted", e.rel+" was retrieved after the walk and before the eviction loop, and was evicted")
 		}
 		if evSet[e.rel] && window[e.rel] {
@@ -392,6 +413,9 @@ func runLayout(r *lib.Run, layLine string, compress bool, items []item, hi, lo u
 	}
 	if len(window) > 0 {
 		r.Count("layout:retrieve-in-evict-window")
+	}
+	if len(duringLoop) > 0 {
+		r.Count("layout:retrieve-during-loop")
 	}
 	r.Count("evicted:" + strconv.Itoa(min(len(evSet), 6)))
 	os.RemoveAll(dir)
@@ -532,7 +556,7 @@ func parseItems(s string) ([]item, bool) {
 		by, e1 := strconv.Atoi(q[4])
 		at, e2 := strconv.ParseInt(q[5], 10, 64)
 		mk, e3 := strconv.Atoi(q[7])
-		if !ok1 || !ok2 || e1 != nil || e2 != nil || e3 != nil || by < 0 || mk < 0 || mk > 4 || file == "" ||
+		if !ok1 || !ok2 || e1 != nil || e2 != nil || e3 != nil || by < 0 || mk < 0 || mk > 5 || file == "" ||
 			strings.ContainsAny(q[0]+q[1], "/. ") || q[0] == "" || q[1] == "" || strings.Contains(file, "/") {
 			return nil, false
 		}
